@@ -367,7 +367,8 @@ def wRethrow : Prog :=
     main := .try_ (.try_ (.throw s0) [(none, 0, .seq [.emit 1 none, .throw s1])] (some (.emit 2 none)))
       [(none, 1, .emit 3 none)] (some (.emit 4 none)) }
 
-/-- `break` out of a try block, then an error after the loop with no enclosing try -/
+/-- `break` out of a try block, then an error after the loop with no enclosing try (the former
+F-C04-5 witness) -/
 def wStale : Prog :=
   { mainLocals := 2
     main := .seq [.forList 0 two (.try_ (.seq [.emit 1 none, .brk]) [(none, 1, .emit 2 none)] none),
@@ -404,12 +405,79 @@ theorem finally_once_mech_fails :
     ∃ P m, (guideTags P 40).count m = 1 ∧ ∃ t, mechTags P 60 = some t ∧ t.count m = 0 :=
   ⟨wReturn, 3, by decide, [1, 4], by decide, by decide⟩
 
-/-- **F-C04-5 on the mechanism model** (negation of `handler_innermost` / `uncaught_result` for the
-code): after `break` left the try block, its catch entry is still registered; the later error,
-which no try encloses, runs that catch block (marker 2). The guide: the run ends with the error. -/
-theorem stale_handler_after_break :
+/-- result of the mechanism model on a program -/
+def mechResult (P : Prog) (fuel : Nat) : Option Result := (compileProg P).map (fun c => (exec c fuel).result)
+
+/-- **F-C04-5 is repaired in the layout** (/repo 0e9e81b, mirrored by `Mech.compile`): `break`
+inside a try block first clears the block's catch entry, so the later error — which no try
+encloses — ends the run uncaught, exactly as the guide says. (Before the repair the mechanism's
+trace was `[1, 3, 2, …]`: the finished loop's catch block ran.) -/
+theorem no_stale_handler_after_break :
     guideTags wStale 40 = [1, 3] ∧ (runProg guide wStale 40).1 = .err (.str (.lit 0)) ∧
-    (mechTags wStale 60).map (fun t => t.take 3) = some [1, 3, 2] := by decide
+    mechTags wStale 60 = some [1, 3] ∧ mechResult wStale 60 = some (.uncaught (.str (.lit 0))) := by
+  decide
+
+/-- The code emitted for `break` inside `k` open try blocks of the loop body — `k` × `TryEnd`, then
+the jump — leaves the loop with the frame's catch stack exactly as it was when the loop body's
+first try block was entered: the `k` entries pushed since are gone, nothing else is touched. -/
+theorem break_clears_catch_entries (code : Code) (k : Nat) : ∀ (f : Frame) (rest : List Frame)
+    (o : List Nat) (entries K : List (Nat × Nat × Nat)) (l : LoopRec) (ls : List LoopRec),
+    entries.length = k → f.catchStack = entries ++ K → f.loops = l :: ls →
+    CodeAt code f.fn f.ip (List.replicate k Ins.tryEnd ++ [Ins.brk]) →
+    steps code (k + 1) (mk f rest o) =
+      mk { fn := f.fn, ip := l.exit, catchStack := K, barrier := f.barrier, loops := ls, regs := f.regs } rest o := by
+  induction k with
+  | zero =>
+    intro f rest o entries K l ls hlen hcs hloops hcode
+    have he : entries = [] := List.eq_nil_of_length_eq_zero hlen
+    subst he
+    have hb : fetchAt code f.fn f.ip = some .brk := codeAt_head (by simpa using hcode)
+    simp only [List.nil_append] at hcs
+    rw [steps_one]
+    simp [step, mk, hb, hloops, setTop, ← hcs]
+  | succ k ih =>
+    intro f rest o entries K l ls hlen hcs hloops hcode
+    obtain ⟨e, es, rfl⟩ : ∃ e es, entries = e :: es := by
+      cases entries with
+      | nil => simp at hlen
+      | cons e es => exact ⟨e, es, rfl⟩
+    have hcode' : CodeAt code f.fn f.ip (Ins.tryEnd :: (List.replicate k Ins.tryEnd ++ [Ins.brk])) := by
+      simpa [List.replicate_succ] using hcode
+    have ht := codeAt_head hcode'
+    let f1 : Frame := { f with ip := f.ip + 1, catchStack := f.catchStack.drop 1 }
+    have h1 : steps code 1 (mk f rest o) = mk f1 rest o := by rw [steps_one, step_tryEnd ht]
+    have h2 := ih f1 rest o es K l ls (by simpa using hlen) (by simp [f1, hcs]) hloops (codeAt_tail hcode')
+    rw [show k + 1 + 1 = 1 + (k + 1) by omega, steps_add, h1, h2]
+
+/-- the same for `continue`: the jump goes to the loop's next-iteration point, the loop record stays -/
+theorem continue_clears_catch_entries (code : Code) (k : Nat) : ∀ (f : Frame) (rest : List Frame)
+    (o : List Nat) (entries K : List (Nat × Nat × Nat)) (l : LoopRec) (ls : List LoopRec),
+    entries.length = k → f.catchStack = entries ++ K → f.loops = l :: ls →
+    CodeAt code f.fn f.ip (List.replicate k Ins.tryEnd ++ [Ins.cont]) →
+    steps code (k + 1) (mk f rest o) =
+      mk { fn := f.fn, ip := l.next, catchStack := K, barrier := f.barrier, loops := l :: ls, regs := f.regs } rest o := by
+  induction k with
+  | zero =>
+    intro f rest o entries K l ls hlen hcs hloops hcode
+    have he : entries = [] := List.eq_nil_of_length_eq_zero hlen
+    subst he
+    have hb : fetchAt code f.fn f.ip = some .cont := codeAt_head (by simpa using hcode)
+    simp only [List.nil_append] at hcs
+    rw [steps_one]
+    simp [step, mk, hb, hloops, setTop, ← hcs]
+  | succ k ih =>
+    intro f rest o entries K l ls hlen hcs hloops hcode
+    obtain ⟨e, es, rfl⟩ : ∃ e es, entries = e :: es := by
+      cases entries with
+      | nil => simp at hlen
+      | cons e es => exact ⟨e, es, rfl⟩
+    have hcode' : CodeAt code f.fn f.ip (Ins.tryEnd :: (List.replicate k Ins.tryEnd ++ [Ins.cont])) := by
+      simpa [List.replicate_succ] using hcode
+    have ht := codeAt_head hcode'
+    let f1 : Frame := { f with ip := f.ip + 1, catchStack := f.catchStack.drop 1 }
+    have h1 : steps code 1 (mk f rest o) = mk f1 rest o := by rw [steps_one, step_tryEnd ht]
+    have h2 := ih f1 rest o es K l ls (by simpa using hlen) (by simp [f1, hcs]) hloops (codeAt_tail hcode')
+    rw [show k + 1 + 1 = 1 + (k + 1) by omega, steps_add, h1, h2]
 
 set_option maxRecDepth 4096 in
 /-- non-vacuity of the partial theorem: on normal and caught exits (typed chain, error raised two
@@ -432,7 +500,7 @@ theorem mech_trace_eq_guide_trace (P : Prog) (hdefs : P.defs = []) (hm : Frag P.
     ∃ k, ∀ fuel ≥ k, (exec code fuel).out = guideTags P n ∧
       ((∃ v, (runProg guide P n).1 = .ok v ∧ (exec code fuel).result = .done) ∨
        (∃ v, (runProg guide P n).1 = .err v ∧ (exec code fuel).result = .uncaught v)) := by
-  obtain ⟨c, hcm, rfl⟩ : ∃ c, compile 64 0 P.main = some c ∧ code = [c] := by
+  obtain ⟨c, hcm, rfl⟩ : ∃ c, compile 64 0 0 P.main = some c ∧ code = [c] := by
     simp only [compileProg, hdefs, List.map_nil, compileProg.go, Option.bind_eq_bind,
       Option.bind_eq_some_iff, Option.pure_def, Option.some.injEq] at hc
     obtain ⟨c, h1, r, h2, h3⟩ := hc
